@@ -273,10 +273,16 @@ func (r *FeatureLocal) ApproveOrDenyWrite(msg *api.Message, err model.ErrorType)
 }
 
 func (r *FeatureLocal) SetWriteApprovalTimeout(duration time.Duration) {
+	r.muxResponseCB.Lock()
+	defer r.muxResponseCB.Unlock()
+
 	r.writeTimeout = duration
 }
 
 func (r *FeatureLocal) CleanWriteApprovalCaches(ski string) {
+	r.muxWriteReceived.Lock()
+	defer r.muxWriteReceived.Unlock()
+
 	r.muxResponseCB.Lock()
 	defer r.muxResponseCB.Unlock()
 
@@ -654,7 +660,11 @@ func (r *FeatureLocal) HandleMessage(message *api.Message) *model.ErrorType {
 		}
 	case model.CmdClassifierTypeWrite:
 		// if there is a write permission check callback set, invoke this instead of directly allowing the write
-		if len(r.writeApprovalCallbacks) > 0 {
+		r.muxResponseCB.Lock()
+		approvalCallbacks := len(r.writeApprovalCallbacks)
+		r.muxResponseCB.Unlock()
+
+		if approvalCallbacks > 0 {
 			r.addPendingApproval(message)
 			r.processWriteApprovalCallbacks(message)
 		} else {
